@@ -248,6 +248,61 @@ def body(ch, tag, flag):
     return ok
 '''
 
+THREADS = '''
+def body(n):
+    import threading, queue
+
+    class Worker:
+        def __init__(self):
+            self.q, self.r = queue.Queue(), queue.Queue()
+            self.t = threading.Thread(target=self.loop, daemon=True)
+            self.t.start()
+
+        def loop(self):
+            while True:
+                fn = self.q.get()
+                if fn is None:
+                    return
+                try:
+                    self.r.put(('ok', fn()))
+                except Exception as e:
+                    self.r.put(('exc', type(e).__name__))
+
+        def call(self, fn):
+            self.q.put(fn)
+            return self.r.get(timeout=20)
+
+    def enc_ok(legacy):
+        def f():
+            v = hx.table([("k", n), ("j", [n, 3000000000])])
+            return ref.equal(encode.field_table(v), ref.table(v, legacy))
+        return f
+
+    a, b = Worker(), Worker()
+    ok = True
+    try:
+        encode.support_deprecated_rabbitmq(False)
+        steps = [(a, True), (b, False), (a, None), (b, True), (None, False), (a, None), (b, None), (None, True),
+                 (b, False), (a, None)]
+        state = False
+        for who, toggle in steps:
+            if toggle is not None:
+                fn = (lambda t=toggle: encode.support_deprecated_rabbitmq(t))
+                if who is None:
+                    fn()
+                else:
+                    ok = ok and who.call(fn)[0] == 'ok'
+                state = toggle
+            for w in (a, b):
+                ok = ok and w.call(enc_ok(state)) == ('ok', True)
+            ok = ok and enc_ok(state)() and encode.DEPRECATED_RABBITMQ_SUPPORT is state
+        return ok
+    finally:
+        encode.support_deprecated_rabbitmq(False)
+        a.q.put(None)
+        b.q.put(None)
+'''
+
 HISTORY = '''
 def body(n, k):
     """same operation before / after toggles and failing calls equals the fresh-interpreter result"""
@@ -308,6 +363,11 @@ def partitions(tier, seed):
                           280 if q else 480, family='history',
                           bound='13 encode/marshal calls interleaved with toggles and failing decodes, n in [%d, %d)' % (lo, hi),
                           rep={'n': lo, 'k': 'k'}))
+    parts.append(Part('threads_sequential_history', [('n', 'int')], [], THREADS, PRE, 60, family='history',
+                      bound='CONCRETE trace only (no schedule exploration): two long-lived threads and the main '
+                            'thread take turns (strictly sequential hand-over) toggling the switch and encoding; '
+                            'every call must equal the fresh-interpreter result for the current switch',
+                      rep={'n': 40000}, concrete_only=True))
     parts.append(Part('twin_snapshot', [('flag', 'bool')], [],
                       'def body(flag):\n'
                       '    s0 = snapshot()\n'
